@@ -1,7 +1,8 @@
 // Harness for C06 (segmentation independence) and C08 (robustness and bounds) of nbhttp.Parser.
-//  part M : correspondence with the Coq per-byte model (events, accept/reject/too-long, retained length)
-//  part O6: property oracle on the implementation alone: one piece vs every segmentation (ReadLimit = 0)
-//  part O8: property oracle: no recovered panic, no slow call, retained bytes bounded, malformed framing rejected
+//
+//	part M : correspondence with the Coq per-byte model (events, accept/reject/too-long, retained length)
+//	part O6: property oracle on the implementation alone: one piece vs every segmentation (ReadLimit = 0)
+//	part O8: property oracle: no recovered panic, no slow call, retained bytes bounded, malformed framing rejected
 package main
 
 import (
@@ -17,6 +18,7 @@ import (
 	"time"
 
 	"github.com/lesismal/nbio/logging"
+	"github.com/lesismal/nbio/mempool"
 	"github.com/lesismal/nbio/nbhttp"
 	"verifharness/hx"
 )
@@ -34,23 +36,30 @@ func (c *fconn) SetWriteDeadline(t time.Time) error { return nil }
 
 type recp struct{ ev []string }
 
-func h(s string) string                                      { return hex.EncodeToString([]byte(s)) }
-func (p *recp) OnMethod(_ *nbhttp.Parser, m string)          { p.ev = append(p.ev, "M:"+h(m)) }
-func (p *recp) OnURL(_ *nbhttp.Parser, u string) error       { p.ev = append(p.ev, "U:"+h(u)); return nil }
-func (p *recp) OnProto(_ *nbhttp.Parser, s string) error     { p.ev = append(p.ev, "P:"+h(s)); return nil }
-func (p *recp) OnStatus(_ *nbhttp.Parser, c int, s string)   { p.ev = append(p.ev, fmt.Sprintf("S:%d:%s", c, h(s))) }
-func (p *recp) OnHeader(_ *nbhttp.Parser, k, v string)       { p.ev = append(p.ev, "H:"+h(k)+"="+h(v)) }
-func (p *recp) OnContentLength(_ *nbhttp.Parser, n int)      { p.ev = append(p.ev, fmt.Sprintf("CL:%d", n)) }
-func (p *recp) OnBody(_ *nbhttp.Parser, d []byte) error      { p.ev = append(p.ev, "B:"+hex.EncodeToString(d)); return nil }
-func (p *recp) OnTrailerHeader(_ *nbhttp.Parser, k, v string) { p.ev = append(p.ev, "T:"+h(k)+"="+h(v)) }
-func (p *recp) OnComplete(_ *nbhttp.Parser)                  { p.ev = append(p.ev, "C") }
-func (p *recp) Close(_ *nbhttp.Parser, err error)            {}
-func (p *recp) Clean(_ *nbhttp.Parser)                       {}
+func h(s string) string                                  { return hex.EncodeToString([]byte(s)) }
+func (p *recp) OnMethod(_ *nbhttp.Parser, m string)      { p.ev = append(p.ev, "M:"+h(m)) }
+func (p *recp) OnURL(_ *nbhttp.Parser, u string) error   { p.ev = append(p.ev, "U:"+h(u)); return nil }
+func (p *recp) OnProto(_ *nbhttp.Parser, s string) error { p.ev = append(p.ev, "P:"+h(s)); return nil }
+func (p *recp) OnStatus(_ *nbhttp.Parser, c int, s string) {
+	p.ev = append(p.ev, fmt.Sprintf("S:%d:%s", c, h(s)))
+}
+func (p *recp) OnHeader(_ *nbhttp.Parser, k, v string)  { p.ev = append(p.ev, "H:"+h(k)+"="+h(v)) }
+func (p *recp) OnContentLength(_ *nbhttp.Parser, n int) { p.ev = append(p.ev, fmt.Sprintf("CL:%d", n)) }
+func (p *recp) OnBody(_ *nbhttp.Parser, d []byte) error {
+	p.ev = append(p.ev, "B:"+hex.EncodeToString(d))
+	return nil
+}
+func (p *recp) OnTrailerHeader(_ *nbhttp.Parser, k, v string) {
+	p.ev = append(p.ev, "T:"+h(k)+"="+h(v))
+}
+func (p *recp) OnComplete(_ *nbhttp.Parser)       { p.ev = append(p.ev, "C") }
+func (p *recp) Close(_ *nbhttp.Parser, err error) {}
+func (p *recp) Clean(_ *nbhttp.Parser)            {}
 
 // counts error-level log lines (a recovered panic inside Parse is only logged)
 type cntLogger struct{ errs int64 }
 
-func (l *cntLogger) SetLevel(lvl int)                       {}
+func (l *cntLogger) SetLevel(lvl int)                      {}
 func (l *cntLogger) Debug(format string, v ...interface{}) {}
 func (l *cntLogger) Info(format string, v ...interface{})  {}
 func (l *cntLogger) Warn(format string, v ...interface{})  {}
@@ -80,7 +89,24 @@ type result struct {
 	panicked bool
 }
 
+// allocIndex selects the allocator behind the parser's cache (package-level mempool functions): the in-place growing
+// default, the library's size-class allocator (relocates when a class is exceeded), one that relocates on every Append
+var allocIndex int
+var allocs = []struct {
+	name string
+	mk   func() mempool.Allocator
+}{
+	{"default", nil},
+	{"aligned", func() mempool.Allocator { return mempool.NewAligned() }},
+	{"always-moving", func() mempool.Allocator { return &hx.MovingAllocator{} }},
+}
+
 func implRun(client bool, limit int, segs [][]byte) result {
+	if mk := allocs[allocIndex%len(allocs)].mk; mk != nil {
+		saved := mempool.DefaultMemPool
+		mempool.DefaultMemPool = mk()
+		defer func() { mempool.DefaultMemPool = saved }()
+	}
 	rp := &recp{}
 	p := nbhttp.NewParser(&fconn{}, engineFor(limit), rp, client, nil)
 	var err error
@@ -328,13 +354,15 @@ func main() {
 		}
 		var onePiece result
 		mismatched := false
+		allocIndex = r.Intn(6) // 0,3: default; 1,4: aligned; 2,5: always-moving
+		rep.Stat("allocator." + allocs[allocIndex%len(allocs)].name)
 		for si, segs := range segsets {
 			got := implRun(client, limit, segs)
 			rep.Ops += len(segs)
 			key := fmt.Sprintf("%x/%d/%d", b, limit, si)
 			rep.Case(key, len(got.events) > 0)
 			rep.Stat("result." + got.cls)
-			replay := map[string]interface{}{"harness": "httpparse", "client": client, "readlimit": limit, "segments_hex": hexSegs(segs), "stream": string(b)}
+			replay := map[string]interface{}{"harness": "httpparse", "client": client, "readlimit": limit, "segments_hex": hexSegs(segs), "stream": string(b), "allocator": allocs[allocIndex%len(allocs)].name}
 			// ---- O8: robustness and bounds (implementation alone)
 			if got.panicked {
 				rep.Add(hx.Finding{Kind: "oracle", Property: "C08", Signature: "parse-panic", What: "a panic was recovered inside Parse (error-level log line)", Replay: replay})
